@@ -1014,11 +1014,29 @@ class UTPM(Ring, RawAlgorithmsMixIn):
         return xbar
 
     @classmethod
+    def _minmax_operands(cls, x, y):
+        """ coefficient arrays of the two operands of minimum / maximum with a common shape: a constant operand
+        (scalar, array) is a polynomial of degree zero, operands of different shapes are broadcast like in numpy"""
+        ops = []
+        for a, b in ((x, y), (y, x)):
+            if not isinstance(a, UTPM):
+                c = numpy.asarray(a)
+                if c.dtype == object:
+                    raise NotImplementedError('this combination of types is not yet implemented')
+                a_data = numpy.zeros(b.data.shape[:2] + c.shape, dtype=numpy.result_type(a, b.data.dtype))    # (a Python scalar is weakly typed)
+                a_data[0] = c
+            else:
+                a_data = a.data
+            ops.append(a_data)
+        return cls._broadcast_arrays(ops[0], ops[1])
+
+    @classmethod
     def minimum(cls, x, y):
         # FIXME: this typechecking is probably not flexible enough
         # FIXME: also add pullback
-        if isinstance(x, UTPM) and isinstance(y, UTPM):
-            return UTPM(cls._minimum(x.data, y.data))
+        if isinstance(x, UTPM) or isinstance(y, UTPM):
+            x_data, y_data = cls._minmax_operands(x, y)
+            return UTPM(cls._minimum(x_data, y_data))
         elif isinstance(x, numpy.ndarray) and isinstance(y, numpy.ndarray):
             return numpy.minimum(x, y)
         else:
@@ -1029,8 +1047,9 @@ class UTPM(Ring, RawAlgorithmsMixIn):
     def maximum(cls, x, y):
         # FIXME: this typechecking is probably not flexible enough
         # FIXME: also add pullback
-        if isinstance(x, UTPM) and isinstance(y, UTPM):
-            return UTPM(cls._maximum(x.data, y.data))
+        if isinstance(x, UTPM) or isinstance(y, UTPM):
+            x_data, y_data = cls._minmax_operands(x, y)
+            return UTPM(cls._maximum(x_data, y_data))
         elif isinstance(x, numpy.ndarray) and isinstance(y, numpy.ndarray):
             return numpy.maximum(x, y)
         else:
